@@ -132,6 +132,7 @@ type FieldInv struct {
 type ContractDB struct {
 	FieldInvs []*FieldInv
 	MapInvs   []*MapInv
+	ChanInvs  []*MapInv // invariants of the values sent on channels of a given element type
 	Immutable []ImmutableDecl
 	SliceNorm []ImmutableDecl // slice-typed fields whose stored value always has offset 0
 	Funcs  map[string]*Contract
@@ -165,7 +166,7 @@ var clauseKeywords = map[string]bool{
 	"on": true, "inline": true, "maypanic": true, "nonblocking": true, "callsite": true, "sendsite": true,
 	"props": true, "nosweep": true, "assume": true, "iface": true, "lemma": true, "hyp": true, "concl": true,
 	"dispatch": true, "end": true, "fieldinv": true, "callcount": true, "captures": true, "dyncalls-pure": true, "immutable": true, "slicenorm": true, "opaque": true, "perreturn": true, "uselemma": true,
-	"returnsite": true, "recvsite": true, "mapinv": true, "partial": true,
+	"returnsite": true, "recvsite": true, "mapinv": true, "partial": true, "chaninv": true,
 }
 
 // parseContractFile reads one contract file. pkgPath is the import path of
@@ -352,14 +353,19 @@ func (db *ContractDB) parseContractFile(path, pkgPath string) {
 			if c := mkClause(item{it.kw, label + body, it.line}); c != nil {
 				cur.RecvSites = append(cur.RecvSites, &RecvSiteSpec{Clause: c, Elem: elem})
 			}
-		case "mapinv":
+		case "mapinv", "chaninv":
 			j := strings.LastIndex(it.text, " : ")
 			if j < 0 {
-				db.Errors = append(db.Errors, fmt.Sprintf("%s:%d: mapinv needs 'maptype : expr'", path, it.line))
+				db.Errors = append(db.Errors, fmt.Sprintf("%s:%d: %s needs 'type : expr'", path, it.line, it.kw))
 				continue
 			}
 			if c := mkClause(item{it.kw, it.text[j+3:], it.line}); c != nil {
-				db.MapInvs = append(db.MapInvs, &MapInv{TypeText: strings.TrimSpace(it.text[:j]), Clause: c, Pkg: pkgPath, File: path, Line: it.line})
+				mi := &MapInv{TypeText: strings.TrimSpace(it.text[:j]), Clause: c, Pkg: pkgPath, File: path, Line: it.line}
+				if it.kw == "mapinv" {
+					db.MapInvs = append(db.MapInvs, mi)
+				} else {
+					db.ChanInvs = append(db.ChanInvs, mi)
+				}
 			}
 			cur, curLoop, curLemma = nil, nil, nil
 		case "dyncalls-pure":
